@@ -32,7 +32,10 @@ Shapes == {[link |-> l, ver |-> 4, vnib |-> 4, ihl |-> i, proto |-> p] : l \in {
           \cup {[link |-> l, ver |-> 6, vnib |-> 6, ihl |-> 5, proto |-> p] : l \in {"eth", "raw", "null"}, p \in {6, 17}}
           \cup {[link |-> "eth", ver |-> 4, vnib |-> n, ihl |-> i, proto |-> 6] : n \in {0, 5, 6, 15}, i \in {4, 5, 6}}
           \cup {[link |-> "eth", ver |-> 6, vnib |-> n, ihl |-> 5, proto |-> 6] : n \in {0, 4, 7}}
-ShapeSeq == SetToSeq(Shapes)
+\* cut: bytes missing at the end of every frame that carries payload (a capture with a short snap length): the length fields of
+\* the IP header then overstate what is present; the analyzer works with the bytes that are there
+CutShapes == {[s EXCEPT !.cut = c] : s \in {[link |-> l, ver |-> v, vnib |-> v, ihl |-> 5, proto |-> 6, cut |-> 0] : l \in {"eth", "raw", "null"}, v \in {4, 6}}, c \in {1, 3}}
+ShapeSeq == SetToSeq({[link |-> s.link, ver |-> s.ver, vnib |-> s.vnib, ihl |-> s.ihl, proto |-> s.proto, cut |-> 0] : s \in Shapes} \cup CutShapes)
 
 Base(s, rev) ==
   LET b == BaseHdr(s.ver) IN
@@ -77,12 +80,13 @@ Cfgs == <<
 >>
 
 Admits(c, h) == FL!ShouldProcess(Cfgs[c], Ep(h), {})
-TraceInfo(link, tr) == [frames |-> [i \in 1..Len(tr) |-> Frame(link, tr[i])], readable |-> [i \in 1..Len(tr) |-> Readable(tr[i])],
+CutFrame(link, h, cut) == LET f == Frame(link, h) IN IF Len(h.payload) > cut THEN SubSeq(f, 1, Len(f) - cut) ELSE f
+TraceInfo(link, tr, cut) == [frames |-> [i \in 1..Len(tr) |-> CutFrame(link, tr[i], cut)], readable |-> [i \in 1..Len(tr) |-> Readable(tr[i])],
                         admit |-> [c \in 1..Len(Cfgs) |-> [i \in 1..Len(tr) |-> Admits(c, tr[i])]],
                         quick |-> [i \in 1..Len(tr) |-> QuickReads(link, tr[i], {"D15_null_af_vs_nibble", "D15_ihl_lt_5"})]]
 Emit(k) ==
   LET s == ShapeSeq[k] IN
-  PrintT("REPLAY " \o ToJson([shape |-> s, tcp |-> TraceInfo(s.link, TraceTcp(s)), tls |-> TraceInfo(s.link, TraceTls(s)), http |-> TraceInfo(s.link, TraceHttp(s))]))
+  PrintT("REPLAY " \o ToJson([shape |-> s, tcp |-> TraceInfo(s.link, TraceTcp(s), s.cut), tls |-> TraceInfo(s.link, TraceTls(s), s.cut), http |-> TraceInfo(s.link, TraceHttp(s), s.cut)]))
 
 \* engine A: on the design (no deviation) the quick decoder reads every readable frame like the full one; with the deviations it does not
 ASSUME \A s \in Shapes : \A h \in {TraceTcp(s)[1], TraceTls(s)[1]} : Readable(h) => QuickReads(s.link, h, {}) = "same"
